@@ -155,21 +155,21 @@ Print Assumptions C02_panic_restores_state.
     dispatcher it was handed before — its receiver function is unchanged. *)
 Theorem C02_panic_in_callback_restores :
   forall sm conf h t cs b,
-  let x := xfinal src_fx src_unwind_resets sm conf xinit h in
-  let x' := fst (xstep src_fx src_unwind_resets sm conf x (XEmitCb t cs b)) in
+  let x := xfinal src_fx src_unwind_resets src_dead_counts sm conf xinit h in
+  let x' := fst (xstep src_fx src_unwind_resets src_dead_counts sm conf x (XEmitCb t cs b)) in
   (forall u, ce x' u = true) /\
   (forall u, current (xs x') u = current (xs x) u) /\
   (forall u, xdefault src_fx x' u = current (xs x) u) /\
   (forall u, xdefault src_fx x u = current (xs x) u).
-Proof. exact (fun sm conf => panic_in_callback_restores src_unwind_resets sm conf eq_refl). Qed.
+Proof. exact (fun sm conf => panic_in_callback_restores src_unwind_resets src_dead_counts sm conf eq_refl). Qed.
 Print Assumptions C02_panic_in_callback_restores.
 
 (** ... hence histories in which callbacks panic refine the specification exactly like histories in which they return
     (the headline, over the extended operations; [erase] forgets what the callbacks did). *)
 Theorem C02_spec_with_callback_panics :
   forall sm conf h, no_reentry h -> Nested (erase h) ->
-  Forall2 agrees (map base_obs (map fst (xrun src_fx src_unwind_resets sm conf xinit h))) (aspec ainit (erase h)).
-Proof. exact (fun sm conf h => spec_refinement_with_callback_panics src_unwind_resets sm conf h eq_refl). Qed.
+  Forall2 agrees (map base_obs (map fst (xrun src_fx src_unwind_resets src_dead_counts sm conf xinit h))) (aspec ainit (erase h)).
+Proof. exact (fun sm conf h => spec_refinement_with_callback_panics src_unwind_resets src_dead_counts sm conf h eq_refl). Qed.
 Print Assumptions C02_spec_with_callback_panics.
 
 (** Re-entrancy: an emission made from inside a collector callback that runs under the slow path (some scope live
@@ -187,13 +187,37 @@ Print Assumptions C02_reentrant_emission_gets_none.
     callback panic inside a scope makes the thread's next emission vanish although its scope is still live (witness:
     set_default(c0); an emission whose callback panics; an emission); and the same history with the guard. *)
 Theorem C02_unwind_guard_is_needed :
-  map fst (xrun true false (Some TRACE) (conf_of_list [all_pass]) xinit cb_history) =
+  map fst (xrun true false true (Some TRACE) (conf_of_list [all_pass]) xinit cb_history) =
     [ XO (ONew 0); XO OUnit; XOEmitCb (Some (DCol 0)) (Some 0) None true; XO (OEmit (Some DNone) None) ] /\
-  current (xs (xfinal true false (Some TRACE) (conf_of_list [all_pass]) xinit cb_history)) 0 = DCol 0 /\
-  map fst (xrun true true (Some TRACE) (conf_of_list [all_pass]) xinit cb_history) =
+  current (xs (xfinal true false true (Some TRACE) (conf_of_list [all_pass]) xinit cb_history)) 0 = DCol 0 /\
+  map fst (xrun true true true (Some TRACE) (conf_of_list [all_pass]) xinit cb_history) =
     [ XO (ONew 0); XO OUnit; XOEmitCb (Some (DCol 0)) (Some 0) None true; XO (OEmit (Some (DCol 0)) (Some 0)) ].
 Proof. exact unwind_guard_is_needed. Qed.
 Print Assumptions C02_unwind_guard_is_needed.
+
+(** "Never affect another thread", at THREAD TEARDOWN: `with_default` / `set_default` (and an emission inside it) called
+    from a thread-local destructor that runs after tracing-core's own CURRENT_STATE thread-local is destroyed — every
+    `try_with` fails: nothing is installed, the emission gets the no-op dispatcher — leaves every thread's thread-local
+    default and guards, SCOPED_COUNT, the global default and hence the dispatcher every thread is handed exactly as they
+    were, from ANY state.  [src_dead_counts] is read off State::set_default (SCOPED_COUNT is incremented outside the
+    `try_with` closure, as the guard's drop decrements it outside). *)
+Theorem C02_teardown_scope_affects_nobody :
+  forall sm conf x t cs,
+  let x' := fst (xstep src_fx src_unwind_resets src_dead_counts sm conf x (XDeadScope t cs)) in
+  thr_eq (xs x) (xs x') /\ (forall u, ce x' u = ce x u) /\ (forall u, current (xs x') u = current (xs x) u).
+Proof. exact (dead_scope_affects_nobody src_fx src_unwind_resets). Qed.
+Print Assumptions C02_teardown_scope_affects_nobody.
+
+(** The increment is load-bearing: were such a scope not counted when opened (while its guard's drop still decrements),
+    another thread's live scope would be bypassed — its emission goes to the global default (collector 0) instead of its
+    own scoped collector (1). *)
+Theorem C02_teardown_count_is_needed :
+  nth 5 (map fst (xrun true true false (Some TRACE) (conf_of_list [all_pass; all_pass]) xinit dead_history)) XONoCurrent
+    = XO (OEmit (Some (DCol 0)) (Some 0)) /\
+  nth 5 (map fst (xrun true true true (Some TRACE) (conf_of_list [all_pass; all_pass]) xinit dead_history)) XONoCurrent
+    = XO (OEmit (Some (DCol 1)) (Some 1)).
+Proof. exact dead_scope_count_is_needed. Qed.
+Print Assumptions C02_teardown_count_is_needed.
 
 (** "set_global_default succeeds exactly once", under EVERY interleaving of its three micro-steps
     (compare-exchange; store the dispatcher; store INITIALIZED) for any number of concurrent attempts. *)
